@@ -194,11 +194,11 @@ package util
 // ---- C13 / C04: the key-by-key overlay behind CoalesceTables / MergeTables (one level; what happens inside
 // nested tables is the recursive call's business). The `marks` clause is a free postcondition, assumed at
 // the recursive call and not checked: the overlay changes only its destination table and tables below it
-// (value trees are acyclic: the second precondition, which binds no call site).
+// (`under`, chartutil.spec; that value trees are acyclic and unshared is the first precondition, which binds no call site).
 //@ func coalesceTablesFullKey
 //@   props C13 C04
-//@   requires [caller=value-trees-are-assumed-acyclic-and-unshared] dst != src && level(src) <= level(dst) && (forall k string :: dst != nil && has(dst, k) && typeis(dst[k], map[string]interface{}) ==> level(dst[k].(map[string]interface{})) > level(dst))
-//@   marks forall mm gomap[string]interface{}, k string :: mm != dst && level(mm) <= level(dst) ==> has(mm, k) == old(has(mm, k)) && mm[k] == old(mm[k])
+//@   requires [caller=value-trees-are-assumed-acyclic-and-unshared] dst != src && (forall k string :: dst != nil && has(dst, k) && typeis(dst[k], map[string]interface{}) ==> !under(dst[k].(map[string]interface{}), dst) && !under(dst[k].(map[string]interface{}), src))
+//@   marks forall mm gomap[string]interface{}, k string :: !under(dst, mm) ==> has(mm, k) == old(has(mm, k)) && mm[k] == old(mm[k])
 //@   ensures [a-null-in-the-destination-removes-the-key] !merge && dst != nil && src != nil ==> (forall k string :: has(src, k) && old(has(dst, k)) && old(dst[k]) == nil ==> !has(dst, k))
 //@   ensures [a-missing-key-takes-the-source-value] dst != nil && src != nil ==> (forall k string :: has(src, k) && !old(has(dst, k)) ==> has(dst, k) && dst[k] == src[k])
 //@   ensures [the-destination-wins-otherwise] dst != nil && src != nil ==> (forall k string :: old(has(dst, k)) && !(has(src, k) && !merge && old(dst[k]) == nil) ==> has(dst, k) && dst[k] == old(dst[k]))
@@ -209,3 +209,4 @@ package util
 //@   loop 1 invariant [visited-are-source-keys] forall k string :: #done[k] ==> has(src, k)
 //@   loop 1 invariant [untouched-so-far] forall k string :: !#done[k] && !old(has(dst, k)) ==> !has(dst, k)
 //@   loop 1 invariant [source-untouched] dst != nil && src != nil && dst != src && (forall k string :: has(src, k) == old(has(src, k)) && src[k] == old(src[k]))
+
